@@ -1,6 +1,7 @@
 /-
   Proofs/C04.lean — property C04: grouping partitions the rows; one summary row per distinct
-  key.  Statements only; proofs cite Lemmas/Group.lean, Lemmas/DfSort.lean.
+  key.  Statements only; proofs cite Lemmas/Group.lean, Lemmas/DfSort.lean,
+  Lemmas/GroupRuns.lean, Lemmas/GroupOrder.lean.
 
   `groupsOf n keys` transcribes `aggregate` / `split`:
   sort by the group columns ascending, `unique` on the sorted frame, `np.split`.
@@ -8,6 +9,7 @@
 import Model.Group
 import Lemmas.Group
 import Lemmas.GroupRuns
+import Lemmas.GroupOrder
 
 namespace DI.C04
 
@@ -52,5 +54,67 @@ theorem groups_nonempty (n : Nat) (keys : List (ColKind × List Cell)) (hwf : Wf
     (g : List Nat) (hg : g ∈ groupsOf n keys) : g ≠ [] := groupsOf_nonempty n keys hwf hn g hg
 
 example : splitAt [4, 2, 0, 3, 1] [0, 2, 3] = [[4, 2], [0], [3, 1]] := by decide
+
+/-! ### order properties (Lemmas/GroupOrder.lean) -/
+
+/-- **grouped modify puts every value back on its row**: `modifyPlan` has one entry per original
+    row, and if row `i` takes the value computed at position `p` of group `g`, then that slot of the
+    groups is row `i` itself (`restore = argsort(concatenate(slices))` inverts the grouping). -/
+theorem modify_plan_aligned (n : Nat) (keys : List (ColKind × List Cell)) :
+    (modifyPlan n keys).length = n ∧
+    ∀ i, i < n → ∀ g p, (modifyPlan n keys)[i]! = (g, p) →
+      g < (groupsOf n keys).length ∧ p < ((groupsOf n keys)[g]!).length ∧
+        ((groupsOf n keys)[g]!)[p]! = i :=
+  ⟨modifyPlan_length n keys, fun i hi g p h => modifyPlan_aligned n keys i hi g p h⟩
+
+/-- … and every computed value (every slot of every group) is used exactly once. -/
+theorem modify_plan_uses_each_value_once (n : Nat) (keys : List (ColKind × List Cell)) :
+    (modifyPlan n keys).Perm (groupTags (groupsOf n keys) 0) := modifyPlan_perm n keys
+
+/-- **groups ascending**: for group numbers `g1 < g2`, every row of group `g1` has a key tuple strictly
+    before the key tuple of every row of group `g2` in the specification order (ascending per key,
+    first key primary, missing last): `≤` holds, the reverse `≤` fails, and the tuples differ. -/
+theorem groups_ascending (n : Nat) (keys : List (ColKind × List Cell)) (hwf : WfKeys n (ascKeys keys))
+    (g1 g2 : Nat) (h12 : g1 < g2) (h2 : g2 < (groupsOf n keys).length)
+    (a b : Nat) (ha : a ∈ (groupsOf n keys)[g1]!) (hb : b ∈ (groupsOf n keys)[g2]!) :
+    leLexBy (specLts (ascKeys keys)) (keyRow keys a) (keyRow keys b) = true ∧
+    leLexBy (specLts (ascKeys keys)) (keyRow keys b) (keyRow keys a) = false ∧
+    keyRow keys a ≠ keyRow keys b :=
+  groupsOf_ascending n keys hwf g1 g2 h12 h2 a b ha hb
+
+/-- the specification order used above is the plain ascending, missing-last order on every key. -/
+theorem group_order_is_ascending (keys : List (ColKind × List Cell)) :
+    ∀ lt ∈ specLts (ascKeys keys), lt = ltNaLast Key.le := specLts_asc keys
+
+/-- **original order inside a group**: every group lists its rows with strictly increasing original
+    row ids (stability of the sort). -/
+theorem group_rows_in_original_order (n : Nat) (keys : List (ColKind × List Cell)) (hwf : WfKeys n (ascKeys keys))
+    (g : List Nat) (hg : g ∈ groupsOf n keys) : g.Pairwise (· < ·) :=
+  groupsOf_rows_increasing n keys hwf g hg
+
+/- non-vacuity: one integer key column [2, 1, 2, none, 1]. -/
+example : groupsOf 5 [({ isString := false, fastAsc := true, isNumber := true, isInteger := true },
+      [some (.i 2), some (.i 1), some (.i 2), none, some (.i 1)])] = [[1, 4], [0, 2], [3]] ∧
+    modifyPlan 5 [({ isString := false, fastAsc := true, isNumber := true, isInteger := true },
+      [some (.i 2), some (.i 1), some (.i 2), none, some (.i 1)])]
+      = [(1, 0), (0, 0), (1, 1), (2, 0), (0, 1)] := by
+  have hs : groupSortIdx 5 [({ isString := false, fastAsc := true, isNumber := true, isInteger := true },
+      [some (.i 2), some (.i 1), some (.i 2), none, some (.i 1)])] = [1, 4, 0, 2, 3] := by
+    simp [groupSortIdx, dfSortIdx, lexsortIdx, argsort, sortPairs, sortKey, rowsOf, List.mergeSort,
+      List.range, List.range.loop, List.zipIdx, leLex, ltNaLast, ltOf, Key.le]
+  have hg : groupsOf 5 [({ isString := false, fastAsc := true, isNumber := true, isInteger := true },
+      [some (.i 2), some (.i 1), some (.i 2), none, some (.i 1)])] = [[1, 4], [0, 2], [3]] := by
+    simp only [groupsOf, hs]; decide
+  refine ⟨hg, ?_⟩
+  rw [modifyPlan_eq, hg]
+  simp [argsort, sortPairs, List.mergeSort, List.zipIdx, gather, groupTags, List.range, List.range.loop]
+
+example : WfKeys 5 (ascKeys [({ isString := false, fastAsc := true, isNumber := true, isInteger := true },
+      [some (.i 2), some (.i 1), some (.i 2), none, some (.i 1)])]) := by
+  intro k hk
+  simp [ascKeys] at hk; subst hk
+  refine ⟨rfl, fun _ c hc => ?_⟩
+  simp at hc
+  rcases hc with rfl | rfl | rfl | rfl | rfl <;> first | exact Or.inl rfl | exact Or.inr ⟨_, rfl⟩
 
 end DI.C04
